@@ -432,7 +432,31 @@ val cw_shift : n
 
 val ascii_limit : n
 
+val ctype_alpha : n
+
+val ctype_lower : n
+
+val ctype_upper : n
+
+val ctype_punct : n
+
+val ctype_digit : n
+
+val ctype_xdigit : n
+
+val ctype_alnum : n
+
 val ctype_space : n
+
+val ctype_blank : n
+
+val ctype_cntrl : n
+
+val ctype_graph : n
+
+val ctype_print : n
+
+val ctype_word : n
 
 val ptype_Ascii : n
 
@@ -559,6 +583,8 @@ val rec_none_of : raw_record -> n -> n -> bool
 type rune_set = { ivs : (n * n) list; ascii : n }
 
 val rs_empty : rune_set
+
+val rs_is_empty : rune_set -> bool
 
 val max_rune : n
 
@@ -828,6 +854,7 @@ type expr =
 | ERespond of n * expr
 | EResp of n
 | EPred of (n * n)
+| EBre of n list
 
 val c : n
 
@@ -880,6 +907,7 @@ type pexp =
 | PRecExpr of pexp * pexp
 | PRaiseRule of name * nat * n
 | PRaiseExpr of name * pexp
+| PNegSet of pexp
 
 type 'a err =
 | OK of 'a
@@ -894,6 +922,8 @@ val e_table : n
 val e_limit : n
 
 val e_bad_string : n
+
+val e_bad_class : n
 
 val bind2 : ('a1 * 'a2) err -> ('a1 -> 'a2 -> 'a3 err) -> 'a3 err
 
@@ -929,6 +959,73 @@ val seqp : pexp -> pexp -> pexp
 val map_opt : ('a1 -> 'a2 option) -> 'a1 list -> 'a2 list option
 
 val utf8_tocasefold : ucd_table -> n list -> n list option
+
+val bytes_eqb : n list -> n list -> bool
+
+val take_any : n list -> (n list * n list) option
+
+type belem =
+| BRange of n list
+| BClass of n list
+| BSingle of n list
+
+type bitem =
+| BDot
+| BSeq of n list
+| BBracket of bool * belem list
+
+val starts_with : n list -> n list -> bool
+
+val class_name : nat -> n list -> n list * n list
+
+val parse_element : n list -> (belem * n list) option
+
+val more_elements : nat -> n list -> belem list * n list
+
+val parse_bracket : n list -> (bitem * n list) option
+
+val seq_chars : nat -> n list -> n list * n list
+
+val parse_items : nat -> n list -> bitem list * n list
+
+val parse_bre : n list -> bitem list option
+
+val ascii_tolower : n -> n
+
+val normalize_label : n list -> n list
+
+val str_of : n list -> n list
+
+val ctype_labels : (n list * n) list
+
+val assoc_label : (n list * n) list -> n list -> n option
+
+val stoctype : n list -> n option
+
+val split_dash_from : n list -> n list * n list
+
+val split_dash : n list -> n list * n list
+
+type bstate = { b_runes : rune_set; b_classes : n }
+
+val add_rune_range : ucd_table -> bool -> rune_set -> n -> n -> rune_set err
+
+val bracket_range2 :
+  ucd_table -> bool -> bstate -> n list -> n list -> bstate err
+
+val apply_elem : ucd_table -> bool -> bstate -> belem -> bstate err
+
+val apply_elems : ucd_table -> bool -> bstate -> belem list -> bstate err
+
+val gen_match : ucd_table -> bool -> n list -> pexp err
+
+val bracket_commit : bool -> bstate -> pexp
+
+val gen_item : ucd_table -> bool -> bitem -> pexp err
+
+val gen_items : ucd_table -> bool -> bitem list -> pexp err
+
+val compile_bre : ucd_table -> bool -> n list -> (pexp * bool) err
 
 val encoding : nat option -> nat -> bool
 
